@@ -157,9 +157,9 @@ theorem lock_changes_only_by (st : State) (op : Op) :
       all_goals (first | rfl | skip)
   | interactive on => rfl
   | macroLookup name => simp only [step]; split <;> rfl
-  | singleton key c =>
+  | singleton key c rn =>
     simp only [step]
-    cases h : st.singletonUse key c with
+    cases h : st.singletonUse key c rn with
     | error e => rfl
     | ok r =>
       obtain ⟨st', v⟩ := r
